@@ -36,7 +36,9 @@ theorem icmp_readBody_good (t : Nat) (c : Cursor) (h : c.Inv) :
 
 /-- the constructor up to the point where the rest of the stream becomes the inner `RawPDU` -/
 theorem icmp_parseHead_good (b : Bytes) :
-    Good (fun p c => p.Inv ∧ c.size + 8 ≤ b.length) (Cursor.ofBytes b) (Icmp4.parseHead b) := by
+    Good (fun p c => p.Inv ∧ c.size + 8 ≤ b.length ∧
+        (4 + (p.ext.exts.map ExtObj.size).sum ≤ b.length ∨ p.ext = ExtS.default))
+      (Cursor.ofBytes b) (Icmp4.parseHead b) := by
   unfold Icmp4.parseHead
   have i0 := Cursor.ofBytes_inv b
   have hb0 : (Cursor.ofBytes b).size = b.length := rfl
@@ -53,8 +55,11 @@ theorem icmp_parseHead_good (b : Bytes) :
   obtain ⟨orig, recv, trans⟩ := body
   dsimp only at ho hr hx ⊢
   refine bind_good (tryParseExtIf_good _ c5 _ i5) (.inr rfl) ?_
-  intro ext c6 i6 s6 _
-  exact .inl ⟨_, c6, rfl, i6, by omega, ⟨hun, ho, hr, hx⟩, by omega⟩
+  intro ext c6 i6 s6 hq
+  refine .inl ⟨_, c6, rfl, i6, by omega, ⟨hun, ho, hr, hx⟩, by omega, ?_⟩
+  rcases hq with hq | hq
+  · left; simp only; omega
+  · right; exact hq
 
 /-- **C01 / ICMP**: for every byte string the parsing constructor returns a packet or throws `malformed_packet`; the
     raw accesses of the extension search stay inside the buffer -/
@@ -68,16 +73,17 @@ theorem icmp_parse_safe (b : Bytes) : ParseSafe (Icmp4.parse b) := by
 
 /-- what the constructor leaves as inner PDU is a `RawPDU` over the rest of the stream, or nothing -/
 theorem icmp_parse_shape (b : Bytes) (p : Icmp4) (inner : Inner) (h : Icmp4.parse b = .ok (p, inner)) :
-    p.Inv ∧ (inner = .none ∨ ∃ r, inner = .raw r ∧ r.length < b.length) := by
+    p.Inv ∧ (inner = .none ∨ ∃ r, inner = .raw r ∧ r.length < b.length) ∧
+      (4 + (p.ext.exts.map ExtObj.size).sum ≤ b.length ∨ p.ext = ExtS.default) := by
   unfold Icmp4.parse at h
-  rcases icmp_parseHead_good b with ⟨q, c, e, i, s, hq, h8⟩ | e
+  rcases icmp_parseHead_good b with ⟨q, c, e, i, s, hq, h8, hx⟩ | e
   · rw [e, Out.bind_ok] at h
     dsimp only at h
     rw [finishRaw_ok _ q c i] at h
     injection h with h
     injection h with h1 h2
     subst h1
-    refine ⟨hq, ?_⟩
+    refine ⟨hq, ?_, hx⟩
     by_cases hb : c.toBool
     · right
       simp only [hb, if_true] at h2
@@ -91,7 +97,7 @@ theorem icmp_parse_shape (b : Bytes) (p : Icmp4) (inner : Inner) (h : Icmp4.pars
 theorem icmp_parse_no_cls (b : Bytes) (p : Icmp4) (name : String) (pb : Bytes) (fb : Bool) :
     Icmp4.parse b ≠ .ok (p, .cls name pb fb) := by
   intro h
-  rcases (icmp_parse_shape b p _ h).2 with h1 | ⟨r, h1, _⟩ <;> cases h1
+  rcases (icmp_parse_shape b p _ h).2.1 with h1 | ⟨r, h1, _⟩ <;> cases h1
 
 theorem icmp_parse_inv (b : Bytes) (p : Icmp4) (i : Inner) (h : Icmp4.parse b = .ok (p, i)) : p.Inv :=
   (icmp_parse_shape b p i h).1
